@@ -697,3 +697,37 @@ Theorem C15_source_autosomes_also : forall has_b also_bit parx base,
   Gen.FnCnaryAutosomes.fn_cnary_autosomes has_b (Some also_bit) parx true base =
   base (Some (if has_b then also_bit || parx else also_bit)).
 Proof. exact Proofs.FnCnaryAutosomes.fn_cnary_autosomes_also. Qed.
+
+From CNV Require Proofs.FnCnaryDropLow Proofs.FnCnaryShifts Proofs.FnCnarySexLib Proofs.FnCnaryYFactor Proofs.FnCnaryRatios.
+
+(* drop_low_coverage, the whole function per row (`return self[~drop_idx]`): the model's drop_low is the filter by it *)
+Theorem C15_source_drop_low : forall t verbose,
+  drop_low t =
+  filter (fun b => Gen.FnCnaryDropLow.fn_drop_low_keep (b_log2 b) (has_depth_of b) (depth_of b) verbose
+                     null_log2_coverage min_ref_coverage) t.
+Proof. exact Proofs.FnCnaryDropLow.fn_drop_low_eq. Qed.
+
+(* compare_sex_chromosomes: the chrX shifts `(-1, 0) if is_haploid_x_reference else (0, +1)` *)
+Theorem C15_source_x_shifts : forall hap,
+  x_shifts hap = (inject_Z (fst (Gen.FnCnaryShifts.fn_x_shifts hap)), inject_Z (snd (Gen.FnCnaryShifts.fn_x_shifts hap))).
+Proof. exact Proofs.FnCnaryShifts.fn_x_shifts_eq. Qed.
+
+(* compare_sex_chromosomes: the whole chrY statement (`if len(chry): ... else: chry_male_lr = np.nan`) on the model's own
+   result -- the chrY ratio exists exactly when chrY has bins, the score is the chrX ratio times it *)
+Theorem C15_source_y_factor : forall gstat hap build t d st id id',
+  compare_sex gstat hap build t = Some (d, st) ->
+  let chry := filter (chr_y_filter t build) t in
+  s_score st == fst (Gen.FnCnaryYFactor.fn_y_factor id id' (Z.of_nat (length chry)) (s_x_lr st) (val_of (s_y_lr st)) true) /\
+  s_y_lr st = snd (Gen.FnCnaryYFactor.fn_y_factor id id' (Z.of_nat (length chry)) (s_x_lr st) (val_of (s_y_lr st)) true).
+Proof. exact Proofs.FnCnaryYFactor.fn_y_factor_eq. Qed.
+
+(* compare_sex_chromosomes: the two reported ratios (chrX / chrY mean minus the autosomal mean; the Y ratio missing when
+   chrY has no bins) are the translated differences on the model's three means *)
+Theorem C15_source_sex_ratios : forall gstat hap build t d st,
+  compare_sex gstat hap build t = Some (d, st) ->
+  let use := has_weight t in
+  let r := Gen.FnCnaryRatios.fn_sex_ratios (Proofs.FnCnarySexLib.mean0 (segment_mean use (autosomes t build)))
+             (Proofs.FnCnarySexLib.mean0 (segment_mean use (filter (chr_x_filter t build) t)))
+             (segment_mean use (filter (chr_y_filter t build) t)) in
+  s_x_ratio st == fst r /\ Proofs.FnCnaryRatios.opt_eqQ (s_y_ratio st) (snd r).
+Proof. exact Proofs.FnCnaryRatios.fn_sex_ratios_eq. Qed.
